@@ -167,9 +167,38 @@ def oracle_cap_answered(case, impl):
     return None
 
 
+def oracle_staleq(case, impl):
+    """the refresh leg through the whole daemon: every one of the k identical queries must reach the upstream as the client's
+    bytes and be answered with the answer the upstream gave to THAT request"""
+    f = case.split(" ")
+    if impl.startswith(("ERR", "PANIC", "TIMEOUT")) or " up=" not in impl:
+        return "staleq did not complete: " + impl[:120]
+    k, p = int(f[3]), unhex(f[4])
+    rs = impl.split(" ")[0][2:].split(",")
+    us = impl.split(" up=")[1].split(",")
+    if len(us) != k or us == ["-"]:
+        return ("%d identical queries with the cache on, every stored answer has TTL 0 (never fresh): the upstream received %d requests"
+                % (k, 0 if us == ["-"] else len(us)))
+    for i, u in enumerate(us):
+        if unhex(u) != p:
+            return ("request %d reached the %s upstream as %s, the client sent %s (no option to rewrite): the stale entry was copied "
+                    "over the query before it was forwarded" % (i + 1, f[1], u[:80], f[4][:80]))
+    if len(rs) != k:
+        return "%d replies for %d queries" % (len(rs), k)
+    for i, r in enumerate(rs):
+        if r in ("TIMEOUT", "ERR", "close", "SHORT"):
+            return "query %d of %d got no reply (%s)" % (i + 1, k, r)
+        b = unhex(r)
+        want = p[:2] + bytes([0x81, 0x80, 0, 1, 0, 1, 0, 0, 0, 0]) + p[12:] + bytes([0xc0, 0x0c, 0, 1, 0, 1, 0, 0, 0, 0, 0, 4, 10, 0, (i + 1) >> 8, (i + 1) & 255])
+        if b != want:
+            return "reply %d is %s, the upstream answered that request with %s" % (i + 1, r[:100], want.hex()[:100])
+    return None
+
+
 SPEC = dict(
     lean_module="NV.Props.C01",
-    areas=[dict(name="sock", n_quick=3000, n_thorough=40000, shards_thorough=8, oracle=oracle_c01,
+    areas=[dict(name="staleq", n_quick=12, n_thorough=200, shards_thorough=2, oracle=oracle_staleq, timeout=600),
+           dict(name="sock", n_quick=3000, n_thorough=40000, shards_thorough=8, oracle=oracle_c01,
                 nontrivial=lambda c, i: len(i) > 8),
            dict(name="sockconc", n_quick=2400, n_thorough=32000, shards_thorough=4, oracle=oracle_conc,
                 nontrivial=lambda c, i: len(i) > 8),
